@@ -149,7 +149,7 @@ def run_cases(mr: vlib.ModelRun, cases: list[Case], mode='f'):
     replies = mr.ask(reqs) if reqs else []
     for i, rep, (io, calls) in zip(idx, replies, impls):
         c = cases[i]
-        mo = E.model_outcome(rep, c.g)
+        mo = E.model_outcome(rep, c.g, c.semspec)
         bodies = None
         if mode == 'f' and rep[0] in ('ok', 'fail', 'fatal'):
             b = rep[-1]
